@@ -427,6 +427,12 @@ def _le_len_of(body, o, slice_rp, depth=3):
     if not org:
         return False
     for k, x in org:
+        if k == "place" and x["p"] and x["p"][0].startswith("as Some"):
+            # the variable of `for i in a..x.len()`: i < end <= len(x)
+            end = _range_loop_end(body, x["l"])
+            if end is not None and _le_len_of(body, end, slice_rp, depth - 1):
+                continue
+            return False
         if k != "call":
             return False
         n = x["f"].get("res") or x["f"].get("path") or ""
@@ -436,6 +442,34 @@ def _le_len_of(body, o, slice_rp, depth=3):
             continue
         return False
     return True
+
+
+def _range_loop_end(body, l):
+    """local l holds the result of Range::next() on an iterator made from `start..end` in this body: the `end` operand"""
+    ds = [d for d in body.defs().get(l, []) if not d[2]["d"]["p"]]
+    if len(ds) != 1 or ds[0][1] != "T":
+        return None
+    nx = ds[0][2]
+    if not re.search(r"for std::ops::Range<A>>::next$", nx["f"].get("res") or nx["f"].get("path") or "") or not nx["a"]:
+        return None
+    rp = root_place(body, nx["a"][0])          # through the `&mut *&mut iter` re-borrows of the for-loop desugaring
+    if rp is None or [e for e in rp["p"] if e != "*"]:
+        return None
+    il = rp["l"]
+    for _ in range(4):
+        di = [d for d in body.defs().get(il, []) if not d[2]["d"]["p"]]
+        if len(di) == 1 and di[0][1] != "T" and di[0][2]["rv"]["r"] == "use" and op_place(di[0][2]["rv"]["o"]) is not None and not op_place(di[0][2]["rv"]["o"])["p"]:
+            il = op_place(di[0][2]["rv"]["o"])["l"]        # `let mut iter = into_iter(..)` moved into the loop's iterator slot
+            continue
+        break
+    if len(di) != 1:
+        return None
+    src = di[0][2]
+    rng = None
+    if di[0][1] == "T" and re.search(r"IntoIterator>::into_iter$", src["f"].get("res") or src["f"].get("path") or "") and src["a"]:
+        ag = [x for k, x in origins(body, src["a"][0]) if k == "agg" and x.get("adt") == "std::ops::Range"]
+        rng = ag[0] if len(ag) == 1 and len(origins(body, src["a"][0])) == 1 else None
+    return rng["ops"][1] if rng is not None else None
 
 
 def _prefix_range(body, t):
